@@ -24,6 +24,7 @@ type hazard struct{ file, fn, kind, detail string }
 
 func main() {
 	repo, out := os.Args[1], os.Args[2]
+	translateArith(repo, filepath.Join(filepath.Dir(out), "Arith.lean"))
 	dirs := []string{"x/alliance", "x/alliance/keeper", "x/alliance/types", "x/alliance/bindings", "custom/bank/keeper"}
 	var hz []hazard
 	fset := token.NewFileSet()
